@@ -288,6 +288,13 @@ func (c19) Eval(t *testing.T, c *Case, dec func(int) *Decider) *Outcome {
 				o.Stats.probe("statement-error")
 			}
 		}
+		if p.StdinErrorReturned {
+			o.Stats.probe("stdin-read-error-delivered")
+			if p.ExitCode == 0 && !strings.Contains(p.Stdout, "@ERR ") {
+				o.viol(prop, "documented-error", "read-error-swallowed",
+					fmt.Sprintf("[%s] a read from standard input returned an error, but every statement succeeded and csvq ended with exit code 0 (the table was used although it could not be read completely)", label))
+			}
+		}
 		if p.ExitCode == 0 {
 			o.Stats.probe("end:success")
 		} else {
